@@ -7,6 +7,7 @@
 //  1. engine.AddTransferredConn(nbc)   - the descriptor is registered with a poller,
 //  2. u.commResponse(...)              - the 101 is written,
 //  3. wsc.openHandler(wsc)             - the open callback runs, still on the reader goroutine.
+//
 // From step 1 on the poller goroutine owns the reading of the connection; a conforming client that
 // has read the 101 (step 2) sends its first frame, the poller reads it and runs the message
 // callback through nbc.Execute - nothing orders that behind step 3. (On the other upgrade paths the
